@@ -588,7 +588,9 @@ func TestProp_RegExp(t *testing.T) {
 		prefix := rapid.SampledFrom([]string{"", "a=", "x = ", "(", "return ", "a\n", "!", "[", ","}).Draw(t, "prefix")
 		body := regexpBody(t)
 		flags := rapid.SampledFrom([]string{"", "g", "gi", "dgimsuy", "é", "g0", "$"}).Draw(t, "flags")
-		follower := rapid.SampledFrom([]string{"", ";", " ", "\n", ")", ".test", "/2", "]", ",", "+1"}).Draw(t, "follower")
+		follower := rapid.SampledFrom([]string{"", ";", " ", "\n", ")", ".test", "/2", "]", ",", "+1",
+			// an identifier that starts with an escape is a token of its own (flags are written without escapes)
+			"\\u0062", "\\u{62}c", "\\u0041b", "#p", "`t`", "'s'", "?.x", "=>"}).Draw(t, "follower")
 		lit := "/" + body + "/" + flags
 		src := prefix + lit + follower
 		in := parse.NewInputString(src)
